@@ -29,7 +29,7 @@ def small_scenarios(max_pts=3, objs=(0, 1, 2)):
             # no objective
             out.append(dict(pts=[dict(s=i + 1, t=timing[i] + 1, o=[0], x=[timing[i]]) for i in range(n)],
                             dir="none", weights=[], bound=[], mode="sat", priority="pareto",
-                            max_iter=[], unknown_ok=False, outside_fragment=False, nvars=1))
+                            max_iter=[], unknown_ok=False, outside_fragment=False, time_stops=True, nvars=1))
             for o in itertools.product(objs, repeat=n):
                 for d in ("min", "max"):
                     for mode, prio in (("incremental", "pareto"), ("optimize", "weight"), ("optimize", "pareto")):
@@ -42,7 +42,7 @@ def small_scenarios(max_pts=3, objs=(0, 1, 2)):
                                 out.append(dict(
                                     pts=[dict(s=i + 1, t=timing[i] + 1, o=[o[i]], x=[timing[i]]) for i in range(n)],
                                     dir=d, weights=[1], bound=bound, mode=mode, priority=prio,
-                                    max_iter=mi, unknown_ok=False, outside_fragment=False, nvars=1))
+                                    max_iter=mi, unknown_ok=False, outside_fragment=False, time_stops=True, nvars=1))
     # two objectives (weighted sum / lexicographic / pareto) on 2-3 points
     for n in (2, 3):
         for o1 in itertools.product((0, 1), repeat=n):
@@ -50,7 +50,7 @@ def small_scenarios(max_pts=3, objs=(0, 1, 2)):
                 for mode, prio in (("incremental", "pareto"), ("optimize", "weight"), ("optimize", "lex"), ("optimize", "pareto")):
                     out.append(dict(pts=[dict(s=i + 1, t=i + 1, o=[o1[i], o2[i]], x=[i]) for i in range(n)],
                                     dir="min", weights=[1, 2], bound=[], mode=mode, priority=prio,
-                                    max_iter=[], unknown_ok=False, outside_fragment=False, nvars=1))
+                                    max_iter=[], unknown_ok=False, outside_fragment=False, time_stops=True, nvars=1))
     for i, s in enumerate(out):
         s["id"] = i + 1
     return out
@@ -73,7 +73,7 @@ def objective_values(p, v):
     return vals
 
 
-def from_problem(p, V, mode, priority="pareto", max_iter=None, tracked=(), unknown_ok=False, outside_fragment=False):
+def from_problem(p, V, mode, priority="pareto", max_iter=None, tracked=(), unknown_ok=False, outside_fragment=False, time_stops=False):
     """tracked: list of ("start"|"end", task index 1-based)."""
     keys = list(V.keys())
     timing_ids = {}
@@ -109,6 +109,6 @@ def from_problem(p, V, mode, priority="pareto", max_iter=None, tracked=(), unkno
         d, weights, bound, mixed = "none", [], [], False
     sc = dict(pts=pts, dir=d, weights=weights, bound=bound, mode=mode if p["objs"] else "sat",
               priority=priority, max_iter=[] if max_iter is None else [max_iter], unknown_ok=unknown_ok,
-              outside_fragment=outside_fragment,
+              outside_fragment=outside_fragment, time_stops=time_stops,
               nvars=max(1, len(tracked)))
     return sc, index, mixed or rounding
